@@ -300,7 +300,8 @@ pub fn check(s: &Scenario) -> CheckResult {
 
 fn cev() -> BoxedStrategy<CEv> {
     prop_oneof![
-        16 => (gen::moderate(), dt_pos()).prop_map(|(v, dt)| CEv::P(v, dt)),
+        15 => (gen::moderate(), dt_pos()).prop_map(|(v, dt)| CEv::P(v, dt)),
+        1 => (gen::moderate(), proptest::sample::select(vec![1i64, 2, 3, 50, 100, 119, 120, 121, 500, 999])).prop_map(|(v, dt)| CEv::P(v, dt)),
         1 => Just(CEv::A),
         1 => (0u8..=2).prop_map(CEv::E),
         1 => Just(CEv::SetSame),
@@ -333,7 +334,7 @@ impl Property for C11 {
     }
     fn valid(s: &Scenario) -> bool {
         s.k.iter().all(|x| dom::wide(*x)) && s.cmd_kind < 3 && dom::moderate(s.cmd_value) && dom::t0_span(s.t0) && s.events.len() <= 48 && s.events.iter().all(|e| match e {
-            CEv::P(v, dt) => dom::moderate(*v) && dom::dt_pos(*dt),
+            CEv::P(v, dt) => dom::moderate(*v) && (1..=10_800_000_000_000).contains(dt),
             CEv::E(c) => *c <= 2,
             CEv::SetValue(v) | CEv::SetKind(_, v) | CEv::Follow(_, v) => dom::moderate(*v),
             _ => true,
